@@ -29,6 +29,9 @@ structure Conn where
   decMaxHeaderList : Int                            -- decoder.max_header_list_size
   decMaxTableSize : Int := 4096                     -- decoder.max_allowed_table_size
   encTableSize : Int := 4096                        -- encoder.header_table_size
+  /-- history variable (not part of the implementation's state, never read by the model): every frame object that was
+      serialised into `_data_to_send`, in order -/
+  sent : List Frame := []
 deriving Repr, Inhabited
 
 abbrev CM := M Conn
@@ -152,7 +155,7 @@ def prepareForSending (frames : List Frame) : CM Unit := do
   match frames.mapM Frame.serialize? with
   | none => raise (.py .StructError)
   | some bs =>
-    modifyS fun c => { c with out := c.out ++ bs.foldl (· ++ ·) [] }
+    modifyS fun c => { c with out := c.out ++ bs.foldl (· ++ ·) [], sent := c.sent ++ frames }
     let c ← getS
     if frames.all fun f => (f.bodyLen : Int) ≤ c.maxOutFrame then pure () else raise (.py .AssertionError)
 
@@ -200,7 +203,7 @@ def initiateConnection : CM Unit := do
   let f ← settingsFrameOfLocal
   match f.serialize? with
   | none => raise (.py .StructError)
-  | some b => modifyS fun c => { c with out := c.out ++ pre ++ b }
+  | some b => modifyS fun c => { c with out := c.out ++ pre ++ b, sent := c.sent ++ [f] }
 
 /-! #### base64 (urlsafe) for the h2c upgrade header -/
 
